@@ -44,6 +44,22 @@ WITNESS = {"n": 10 ** 6, "d": 3, "fc": 400, "sc": 2, "k0": 500000000799995, "dty
            "nsub": 2, "cont": False, "dirs": [[[0, 20], [30, 20]]], "order": [0], "name": "witness-1e6/3"}
 
 
+
+def regenerate(res):
+    """T8: candidate-file arithmetic of DigitalRFReader._get_file_list -> coq/Gen/RfLookupGen.v"""
+    import os
+    import sys
+    import common
+    sys.path.insert(0, os.path.join(common.VERIF, "translate"))
+    import c2gallina
+    import rfreader2gallina
+    try:
+        text = rfreader2gallina.translate(common.REPO)
+    except c2gallina.Unsupported as e:
+        res.broken.append("translator T8 (rfreader2gallina) rejects the current _get_file_list: %s" % e)
+        return
+    common.write_if_changed(os.path.join(common.COQ, "Gen", "RfLookupGen.v"), text)
+
 def cdiv(a, b):
     return -((-a) // b)
 
